@@ -127,6 +127,13 @@ void vm_end_case(vm_report *out) {
 /* leave the case open but stop serving: used when harness code must run between library calls */
 void vm_pause(void) { vm_active = 0; }
 void vm_resume(void) { vm_active = 1; }
+/* harness bookkeeping (strdup of failure records etc.) must never be served from the per-case arena */
+int vm_suspend(void) {
+    int was = vm_active;
+    vm_active = 0;
+    return was;
+}
+void vm_restore(int was) { vm_active = was; }
 size_t vm_alloc_count(void) { return alloc_seq; }
 int vm_live_blocks(void) {
     int n = 0;
@@ -271,6 +278,8 @@ void vm_end_case(vm_report *out) {
 }
 void vm_pause(void) {}
 void vm_resume(void) {}
+int vm_suspend(void) { return 0; }
+void vm_restore(int was) { (void)was; }
 size_t vm_alloc_count(void) { return 0; }
 int vm_live_blocks(void) { return 0; }
 void vm_set_fail(size_t a, size_t b) {
